@@ -142,6 +142,11 @@ def bigart_cases(ctx):
         if size // limit > 3000:
             continue
         cases.append(f"bigart {rng.choice('efu')} {size} {limit} {rng.choice('01')}")
+    # every size in a window around the receive buffer's capacity and its doubling (one reply = one write = one read: a reply that
+    # fills the free space of the buffer exactly is somewhere in here, whatever the lengths of the header lines)
+    for lo, hi in ((3980, 4110), (8090, 8200)) if ctx.tier == "quick" else ((3900, 4200), (8000, 8300), (16200, 16500)):
+        for size in range(lo, hi):
+            cases += [f"bigart e {size} 65536 1", f"bigart e {size} 65536 0", f"bigart f {size} 65536 0", f"bigart u {size} 65536 0"]
     if ctx.tier == "thorough":
         cases += [f"bigart e {64 * MIB + 3} {32 * MIB} 1", f"bigart f {33 * MIB} {64 * MIB} 0", f"bigart e {16 * MIB} {16 * MIB} 0", f"bigart u {5 * MIB} 4096 0"]
     return cases
